@@ -88,3 +88,18 @@ func (s *tupleSet) addEntropy(l ref.Lang, e []byte) {
 		s.add(l, len(e), p, x)
 	}
 }
+
+// extremeEntropies: for a language, the entropies whose sentences are made of the longest /
+// shortest words of the list (extreme byte length), every size.
+func extremeEntropies(l ref.Lang) [][]byte {
+	var out [][]byte
+	for _, n := range ref.Counts {
+		for variant := 0; variant < 6; variant++ {
+			for _, longest := range []bool{true, false} {
+				e, _ := ref.Unpack(gen.ExtremeIndices(l, n, longest, variant*4))
+				out = append(out, e)
+			}
+		}
+	}
+	return out
+}
